@@ -26,6 +26,7 @@ def Lawful.tag {T K : Type} {L : Lib T} {nv : Nat} (W : Lawful L nv) (k : K) : L
   isFalse_spec := fun p hp => W.isFalse_spec p.2 hp.2
   select_spec := fun p l hp hl => ⟨⟨rfl, (W.select_spec p.2 l hp.2 hl).1⟩, (W.select_spec p.2 l hp.2 hl).2⟩
   exist_spec := fun p vs hp hv => ⟨⟨rfl, (W.exist_spec p.2 vs hp.2 hv).1⟩, (W.exist_spec p.2 vs hp.2 hv).2⟩
+  restrict_spec := fun p l hp hl hnd => ⟨⟨rfl, (W.restrict_spec p.2 l hp.2 hl hnd).1⟩, (W.restrict_spec p.2 l hp.2 hl hnd).2⟩
   and_spec := fun p q hp hq => ⟨⟨rfl, (W.and_spec p.2 q.2 hp.2 hq.2).1⟩, (W.and_spec p.2 q.2 hp.2 hq.2).2⟩
   iff_spec := fun p q hp hq => ⟨⟨rfl, (W.iff_spec p.2 q.2 hp.2 hq.2).1⟩, (W.iff_spec p.2 q.2 hp.2 hq.2).2⟩
   sat_spec := fun p hp => W.sat_spec p.2 hp.2
@@ -269,7 +270,7 @@ theorem dumpLaw_of_spec {T : Type} {L : Bio.Lib T} {n : Nat} {W : Bio.Lawful L n
 /-- the driver's world satisfies the assumptions about the external world: the tagged truth-table
 library is lawful for every variable set, the alphanumeric sort returns a permutation -/
 def drvWorldOK : WorldOK drvWorld where
-  law := fun nv => (Bio.ttLawful nv).tag nv
+  law := fun nv _ => (Bio.ttLawful nv).tag nv
   an := fun ns => SortModel.isort_perm NatLex.le ns
 
 /-- … and the assumption about the dump, by `Bio.ttDump_spec`: a valid diagram of the variable set
@@ -281,6 +282,15 @@ theorem drvWorld_dump : DumpOKW drvWorld drvWorldOK := by
   simp only at hk
   subst hk
   exact (Bio.ttDump_spec k hnv).ok t hv h1 h0
+
+/-- the store-based world satisfies the assumptions too (`Bio.storeLawful`, `Bio.storeDump_spec`): the
+hybrid-arm theorems hold for a world whose dumps are reduced, shared diagrams -/
+def storeWorldOK : WorldOK storeWorld where
+  law := fun nv h => Bio.storeLawful nv h
+  an := fun ns => SortModel.isort_perm NatLex.le ns
+
+theorem storeWorld_dump : DumpOKW storeWorld storeWorldOK :=
+  fun nv h => (Bio.storeDump_spec nv h).ok
 
 end CliMP
 #print axioms Bio.ttDump_spec
